@@ -25,15 +25,21 @@ import (
 // hostileCrypto is an op.Crypto whose ciphertexts are the generated values: codes and opaque access tokens of a
 // provider with a custom Crypto may contain any character (standard base64 is the everyday case).
 type hostileCrypto struct {
+	fail     func() error // non-nil: Encrypt fails with this (fresh) error
 	mu       sync.Mutex
 	vals     []string
 	plain    map[string]string
 	produced []string
+	fails    int
 }
 
 func (h *hostileCrypto) Encrypt(p string) (string, error) {
 	h.mu.Lock()
 	defer h.mu.Unlock()
+	if h.fail != nil {
+		h.fails++
+		return "", h.fail()
+	}
 	var v string
 	if len(h.vals) > 0 {
 		v, h.vals = h.vals[0], h.vals[1:]
@@ -171,6 +177,7 @@ type e2ePlan struct {
 	faultMethod, faultKind             string
 	faultCode, faultDesc               string
 	faultClass                         string
+	faultVariant                       int
 }
 
 func planE2E(run *ev.Run, j int) e2ePlan {
@@ -210,14 +217,22 @@ func planE2E(run *ev.Run, j int) e2ePlan {
 		if p.scenario == "fault-callback" {
 			switch p.rt {
 			case oidc.ResponseTypeCode:
-				p.faultMethod = pick(r, "GetClientByClientID", "SaveAuthCode", "SaveAuthCode")
+				p.faultMethod = pick(r, "GetClientByClientID", "SaveAuthCode", "SaveAuthCode", "Encrypt")
 			case oidc.ResponseTypeIDTokenOnly:
 				p.faultMethod = pick(r, "GetClientByClientID", "SigningKey", "DeleteAuthRequest")
 			default:
-				p.faultMethod = pick(r, "GetClientByClientID", "CreateAccessToken", "SigningKey", "DeleteAuthRequest")
+				p.faultMethod = pick(r, "GetClientByClientID", "CreateAccessToken", "SigningKey", "DeleteAuthRequest", "Encrypt")
 			}
 		}
-		p.faultKind = pick(r, "oidc", "oidc", "oidc", "plain")
+		if p.faultMethod == "Encrypt" && p.cryptoClass == "default" {
+			// a failing Crypto needs the provider with the pluggable Crypto
+			p.cryptoClass = "b64std"
+			for k := 0; k < 3; k++ {
+				p.cryptoVals = append(p.cryptoVals, genValue(r, p.cryptoClass))
+			}
+		}
+		p.faultKind = pick(r, "oidc", "oidc", "oidc-fmt", "plain", "plain")
+		p.faultVariant = r.IntN(2)
 		var ec string
 		ec, p.faultCode = genErrorCode(r)
 		p.faultClass, p.faultDesc = genClassValue(r)
@@ -279,10 +294,18 @@ func e2eCase(run *ev.Run, j int, router int) {
 		ap.Extra = url.Values{"id_token_hint": {"not.a.token"}}
 	}
 	mkFault := func() error {
-		if p.faultKind == "plain" {
+		switch p.faultKind {
+		case "plain":
 			return errors.New(p.faultDesc)
+		case "oidc-fmt":
+			return newOIDCErrorFmt(p.faultCode, p.faultDesc, p.faultVariant)
 		}
 		return newOIDCError(p.faultCode, p.faultDesc)
+	}
+	// what the storage / crypto error says: the value the provider produced
+	producedDesc := p.faultDesc
+	if p.faultKind == "oidc-fmt" {
+		producedDesc = newOIDCErrorFmt(p.faultCode, p.faultDesc, p.faultVariant).Description
 	}
 	if p.scenario == "fault-create" {
 		w.faults.arm("CreateAuthRequest", mkFault)
@@ -293,7 +316,7 @@ func e2eCase(run *ev.Run, j int, router int) {
 	exp.Input = map[string]any{
 		"router": rn, "scenario": p.scenario, "client": map[string]any{"kind": p.clientKind, "registered_redirect_uri": p.registered},
 		"authorize_request": ap.Values().Encode(), "state": p.state, "session_state_of_storage": p.ss,
-		"crypto": p.cryptoClass, "fault": map[string]any{"method": p.faultMethod, "kind": p.faultKind, "error": p.faultCode, "error_description": p.faultDesc},
+		"crypto": p.cryptoClass, "fault": map[string]any{"method": p.faultMethod, "kind": p.faultKind, "error": p.faultCode, "text": p.faultDesc, "error_says": producedDesc, "as_format": p.faultKind == "oidc-fmt" && p.faultVariant == 0},
 	}
 	exp.Dim = fmt.Sprintf("e|%s|%s|%s|%s|%s|%s|ss=%v|cr=%s|f=%s/%s", rn, p.scenario, p.rt, orDash(p.mode), p.clientKind, p.shape, p.ss != "", p.cryptoClass, p.faultMethod, p.faultKind)
 	if router == 0 {
@@ -312,11 +335,16 @@ func e2eCase(run *ev.Run, j int, router int) {
 		} else {
 			exp.AllowExtra["session_state"] = true
 		}
-		if p.faultKind == "oidc" {
-			exp.Params = append(exp.Params, pair{"error", p.faultCode}, pair{"error_description", p.faultDesc})
-		} else {
-			exp.Present = []string{"error"}
-			exp.AllowExtra["error_description"] = true
+		switch {
+		case p.faultKind != "plain":
+			exp.Params = append(exp.Params, pair{"error", p.faultCode}, pair{"error_description", producedDesc})
+		case callbackPhase:
+			// a plain Go error becomes server_error (DefaultToServerError); its description is what the error said
+			exp.Params = append(exp.Params, pair{"error", "server_error"}, pair{"error_description", p.faultDesc})
+		default:
+			// CreateAuthRequest: the library substitutes its own constant description ("unable to save auth request")
+			exp.Params = append(exp.Params, pair{"error", "server_error"})
+			exp.Present = []string{"error_description"}
 		}
 	}
 	genericError := func(callbackPhase bool) {
@@ -387,7 +415,11 @@ func e2eCase(run *ev.Run, j int, router int) {
 		w.Store.CompleteLogin(id, "user-1")
 	}
 	if p.scenario == "fault-callback" {
-		w.faults.arm(p.faultMethod, mkFault)
+		if p.faultMethod == "Encrypt" && hc != nil {
+			hc.fail = mkFault
+		} else {
+			w.faults.arm(p.faultMethod, mkFault)
+		}
 	}
 	seq0 := resp.SeqEnd
 	resp = w.Callback(router, id)
@@ -395,7 +427,7 @@ func e2eCase(run *ev.Run, j int, router int) {
 	case p.scenario == "callback-before-login":
 		genericError(true)
 		finish(resp, "callback", false)
-	case p.scenario == "fault-callback" && w.faults.hits > 0:
+	case p.scenario == "fault-callback" && (w.faults.hits > 0 || (hc != nil && hc.fails > 0)):
 		faultExpect(true)
 		finish(resp, "callback", false)
 	default:
